@@ -146,6 +146,13 @@ theorem endOf_defined (p : Prov) {v : Val} {en : Option Val} {du : Option Int} (
 
 /-! ## the exclusivity invariant -/
 
+/-! Bridge to the generated table: what `exclusive` of each class is in cal.py *now*.  These are re-checked
+    against the regenerated `Gen.compClasses` on every run; `inv_step` below is proved through them, so an edit
+    of `Event.exclusive` / `Todo.exclusive` in cal.py that changes the group breaks a proof obligation. -/
+theorem exclusive_event : exclusive .event = [.dtend, .duration] := by decide
+theorem exclusive_todo : exclusive .todo = [.due, .duration] := by decide
+theorem exclusive_journal : exclusive .journal = [] := by decide
+
 theorem inv_init : Inv St.init := by simp [Inv, St.init, Slot.present]
 
 theorem inv_step (c : Cls) (s : St) (op : Op) (he : op.isEdit = true) (hi : Inv s) : Inv (next c s op) := by
@@ -160,7 +167,8 @@ theorem inv_step (c : Cls) (s : St) (op : Op) (he : op.isEdit = true) (hi : Inv 
   | set a x =>
     unfold next step
     cases c <;> cases a <;> (try rename_i k; cases k) <;> cases x <;> (try rename_i v; cases v) <;>
-      simp [target, descr, endKey, pSet, setDuration, popOthers, exclusive, St.put, Inv, Slot.present,
+      simp [target, descr, endKey, pSet, setDuration, popOthers, exclusive_event, exclusive_todo, exclusive_journal,
+            St.put, Inv, Slot.present,
             Val.isDT, Val.isDate, Val.isDatetime] at * <;>
       first | exact hi | (intros; simp_all)
 
